@@ -196,3 +196,18 @@ prop("C20",
      level_note="Trusted: Lean kernel; hand model tied by differential on the real hierarchies; kernel mkdir/rmdir atomicity assumed. Three defects repaired (fix: commits)",
      technique="Lean 4 proofs by induction over operation histories + exhaustive interleaving exploration (decide) + Go-lite on regenerated code + differential on real cgroup hierarchies",
      timeout={"quick": 900, "thorough": 3600})
+
+prop("C02",
+     modules=["GoSandbox.Props.C02"],
+     trusted_base=["Model/PathResolve.lean: `Walk` = the kernel's component walk as an inductive relation (the specification), `resolve` = hand model of the repaired resolveTraceePath loop; lexical models of Go's filepath.Clean/Join/Dir/IsAbs and strings.Split used when the regenerated functions run under Go-lite",
+                   "Model/PathDispatch.lean: the Linux ABI table of (dirfd, pathname) registers per traced syscall (transcribed from the kernel's prototypes); `mayModify` (an open writes, creates or truncates)",
+                   "tie: the real absPath/absPathAt/resolveTraceePath/isOpenReadOnly (verif hooks) on real forests with a live child process, vs regenerated code under Go-lite, vs the hand model, vs the kernel's own resolution (openat O_PATH + /proc/self/fd); every traced path syscall under the real ptrace runner with a recording handler"],
+     assumptions=["follow-final reading: the path presented is what the kernel's resolution with the final symlink followed leads to (for lstat/readlink/unlink/rename the link itself is touched; the policy is asked about its target)",
+                  "no concurrent change of the tree between the trap and the kernel's own resolution (TOCTOU is inherent to ptrace path checks)",
+                  "the tracee's /proc is procfs; procfs magic links (cwd/root/fd/N) are followed through their readlink text",
+                  "syscalls the handler has no path rule for (symlink, link, mkdir, mknod, chown, truncate, ...) go to CheckSyscall(name): no path is presented, the property does not speak"],
+     not_covered="errors inside the walk (ENOENT/ENOTDIR/EACCES in the middle): no object exists, the presented path is not constrained; 32-bit/x32 ABIs",
+     level_text="Theorems for every file system, directory, component list and link budget: the resolver model returns exactly the kernel walk's result (soundness, completeness, determinism of the walk), terminates within |todo| + budget*L + 1 iterations, and reports its cap only where the kernel has no resolution; every open that can write/create/truncate is classified write for every flag word; int(int32(reg)) equals the kernel's int dfd for every 64-bit register; the regenerated Handle passes the ABI's (dirfd, path) registers to a check of the right class for each of 26 syscalls and every dirfd site is an int32 chain (kernel-evaluated on regenerated code); regenerated resolver on concrete forests; differential against the kernel on random forests and under real traced runs",
+     level_note="Trusted: Lean kernel; hand model of the loop tied to the regenerated function by kernel-evaluated cases and the per-run differential (not by a proof about the interpreter); kernel resolution semantics as specified by `Walk` and sampled against the real kernel. Three defects repaired (fix: commits)",
+     technique="Lean 4 proofs (induction over fuel / over the Walk derivation) + decide +kernel on regenerated Go-lite code + differential against the kernel's resolution and real traced runs",
+     timeout={"quick": 900, "thorough": 3600})
